@@ -101,7 +101,7 @@ func TestE2E(t *testing.T) {
 // ntE2E: GREASE somewhere in the hello, or a count/ALPN/sigalg/supported_versions edge class.
 func ntE2E(cl []string) bool {
 	for _, c := range cl {
-		if strings.Contains(c, "grease-") && !strings.HasSuffix(c, "grease-none") || strings.HasSuffix(c, ">=99") || strings.HasPrefix(c, "alpn:first-") || c == "alpn:absent" || c == "sigalgs:absent" {
+		if strings.Contains(c, "grease-") && !strings.HasSuffix(c, "grease-none") || strings.HasSuffix(c, ">=99") || strings.HasSuffix(c, ">=256") || strings.HasSuffix(c, ">=250") || strings.HasPrefix(c, "alpn:first-") || c == "alpn:absent" || c == "sigalgs:absent" {
 			return true
 		}
 	}
